@@ -17,7 +17,9 @@ RULE = (
     "GateDefinition objects): s = expand_subcircuits(c, ...) must contain no subcircuit block anywhere (macro "
     "bodies included); its extracted meaning must equal the reference meaning of the program with every "
     "`subcircuit k { B }` rewritten to `{ prepare; B; measure }`; the bounding gates' definitions must BE the "
-    "native ones when present resp. the caller's; constants, registers, pulse imports, macro names unchanged.  "
+    "native ones when present resp. the caller's; constants, registers, pulse imports, macro names unchanged; a "
+    "second expansion of the same circuit object with the other choice of bounding gates gives that choice's "
+    "result.  "
     "behavioural (differential between two spellings): an executable program is rendered once with subcircuit "
     "blocks and once with them spelled out as prepare_all; B; measure_all; both texts are parsed and run: same "
     "number of subcircuits, same probabilities (1e-12), same readout attribution; parse_jaqal_output_list on both "
@@ -154,6 +156,21 @@ def structural(case):
         raise Violation("header-usepulses", f"{s.usepulses} != {c.usepulses}\n--- program:\n{text}")
     if list(s.macros) != list(c.macros) or not (s.native_gates == c.native_gates):
         raise Violation("header-changed", f"macros/native gates\n--- program:\n{text}")
+    # the SAME circuit object expanded once more, with the other choice of bounding gates: the
+    # second answer must not remember the first (anonymous mode; a native table fixes the names)
+    if mode == "anon":
+        p2, m2 = ("prep2", "meas2") if defs == "default" or case.get("second") else ("prepare_all", "measure_all")
+        args2 = {} if (p2, m2) == ("prepare_all", "measure_all") else {"prepare_def": p2, "measure_def": m2}
+        st_, s2 = guard(expand_subcircuits, c, what="expand_subcircuits (second call)", **args2)
+        if st_ == "err":
+            raise Violation("rejected-valid-program", f"second call: {s2}\n--- program:\n{text}")
+        try:
+            m_s2 = extract.meaning(s2)
+            m_ref2 = Ref(desugar_prog(prog, p2, m2)).meaning()
+        except (extract.ExtractError, Invalid) as e:
+            raise Violation("result-unresolvable", f"second call: {e}\n--- program:\n{text}")
+        if not same_meaning(m_ref2, m_s2):
+            raise Violation("second-expansion-remembers-first", f"first [{defs}], then ({p2}, {m2}): expected {show(m_ref2)}\ngot      {show(m_s2)}\n--- program:\n{text}")
     ctx, explicit = _sub_context(prog)
     nt = bool(ctx & {"loop", "macro"}) or (bool(ctx) and explicit)
     return {"nontrivial": nt, "classes": ["defs:" + defs, "mode:" + mode] + ["sub-in:" + x for x in sorted(ctx)], "key": text + mode + defs, "sample": {"text": text, "mode": mode, "defs": defs}}
